@@ -80,8 +80,8 @@ def _plain(x):
 
 def api_behaviours(ctx: Ctx) -> list[dict]:
     """Exhaustive depth-1 behaviours and simulated longer ones (two TLC runs side by side)."""
-    plan = [("MC_TestCase_simq.cfg", 80, 8)] if ctx.quick else \
-        [("MC_TestCase_sim.cfg", 1500, 13), ("MC_TestCase_simraw.cfg", 1500, 9)]
+    plan = [("MC_TestCase_simq.cfg", 60, 8)] if ctx.quick else \
+        [("MC_TestCase_sim.cfg", 400, 13), ("MC_TestCase_simraw.cfg", 400, 9)]
 
     def simulated() -> list[dict]:
         sims = []
@@ -98,6 +98,7 @@ def api_behaviours(ctx: Ctx) -> list[dict]:
         behs = ctx.behaviours("MC_TestCase", "MC_TestCase.cfg" if ctx.quick else "MC_TestCase_thorough.cfg",
                               workers=3)
         sims = fut.result()
+    behs.sort(key=lambda b: json.dumps(b, sort_keys=True))   # PrintT order depends on TLC's workers
     ctx.notes["api_behaviours_exhaustive_depth1"] = len(behs)
     ctx.notes["api_behaviours_simulated"] = len(sims)
     return behs + sims
@@ -144,7 +145,7 @@ def history_specs(ctx: Ctx) -> list[dict]:
         modules.append((name, str(gen_dir)))
     specs = []
     reps = 1 if ctx.quick else 6
-    steps = 110 if ctx.quick else 260
+    steps = 90 if ctx.quick else 260
     for module, src in modules:
         for L in (5, 8, 12):
             for r in range(reps):
